@@ -188,6 +188,18 @@ func consCores(prop, tier string) []consCore {
 				out = append(out, consCore{kind: "start", magic: m, k: s})
 			}
 		}
+		// several partitions share one broker: every fault letter at the 2nd and the 4th fetch
+		for f := 1; f < nFetchFaults; f++ {
+			poss := []int{1, 3}
+			if f == ffNoLeader {
+				poss = []int{1, 2, 3, 4, 5, 6, 8} // the position also decides how long the partition stays leaderless
+			}
+			for _, pos := range poss {
+				for _, parts := range []int{2, 3} {
+					out = append(out, consCore{kind: "shared", k: f, pat: pos, batch: parts})
+				}
+			}
+		}
 	case "C11":
 		for pat := 0; pat < 4; pat++ {
 			for s := 0; s <= 14; s++ {
@@ -231,6 +243,36 @@ func consCoreScenario(prop, tier string, idx int) *consScenario {
 				sc.Version = sarama.V0_9_0_0
 			}
 		}
+	case "shared":
+		sc.Parts = c.batch
+		sc.BatchSizes = []int{3}
+		sc.MaxBatches = 1
+		for p := 0; p < sc.Parts; p++ {
+			lg := genPlainLog(rng, 400, p*1000) // long enough for the other partitions to be still reading when a fault has played out
+			for i := range lg {
+				lg[i].Offset = sc.Base + int64(i)
+			}
+			sc.Logs = append(sc.Logs, lg)
+			sc.StartKind, sc.StartOff = append(sc.StartKind, "oldest"), append(sc.StartOff, 0)
+			sc.Later = append(sc.Later, nil)
+			sc.Aborted = append(sc.Aborted, nil)
+			sc.LSO = append(sc.LSO, -1)
+		}
+		for i := 0; i < c.pat; i++ {
+			sc.Faults = append(sc.Faults, ffOk)
+			sc.FaultCodes = append(sc.FaultCodes, 0)
+			sc.CutFrac = append(sc.CutFrac, 0.5)
+		}
+		sc.Faults = append(sc.Faults, c.k)
+		code := sarama.ErrNoError
+		switch c.k {
+		case ffRedispatch:
+			code = sarama.ErrNotLeaderForPartition
+		case ffOtherCode:
+			code = sarama.ErrRequestTimedOut
+		}
+		sc.FaultCodes = append(sc.FaultCodes, code)
+		sc.CutFrac = append(sc.CutFrac, 0.5)
 	case "start":
 		lg := genPlainLog(rng, 10, 0)
 		for i := range lg {
@@ -323,6 +365,8 @@ func consCoreScenario(prop, tier string, idx int) *consScenario {
 		sc.Aborted = [][]sarama.VSimAborted{nil}
 		sc.LSO = []int64{-1}
 	}
-	sc.Later = [][]sarama.VRec{nil}
+	if len(sc.Later) != sc.Parts {
+		sc.Later = make([][]sarama.VRec, sc.Parts)
+	}
 	return sc
 }
